@@ -174,6 +174,8 @@ T_CELLS = {
 
 def t_cell_discs(repr_, shape, which):
     lo, hi = dom_min(repr_), dom_max(repr_)
+    if lo == -(1 << 63):
+        lo += 1  # i64::MIN itself is exercised by the C11 corpus (finding F3), not by the layer-T cells
     signed = REPRS[repr_][1]
     if shape == "gapless":
         if which == "a":
